@@ -157,7 +157,8 @@ def _event_case(rng, name, o, d, z, extra_req, call_fn, descr, fmt=tinst):
     descr = dict(descr)
     descr.update({"observer": obs_descr(o), "date": str(d), "zone": z.describe()})
     return Case(name, "%s %s %s%s %s" % (name, obs_tok(o), I(d.toordinal()), extra_req, z.tok),
-                fmt(v, z.tzinfo) if st == "ok" else E(v), descr, tags)
+                fmt(v, z.tzinfo) if st == "ok" else E(v), descr, tags,
+                live={"observer": o, "result": (st, v)})
 
 
 def gen_events(rng, n, tier="quick"):
